@@ -404,6 +404,8 @@ def replay_file(ctx, path):
     d = json.load(open(path))
     rp = d.get("replay") or {}
     trace = rp.get("trace")
+    d["trace_module"] = d.get("trace_module") or rp.get("module")
+    d["consts"] = d.get("consts") or rp.get("consts")
     if not trace or not d.get("trace_module"):
         print(json.dumps(d, indent=1)[:6000])
         print("(this replay file carries no recorded trace; the text above is the complete record)")
